@@ -132,6 +132,8 @@ def run(tier, seed, rep, replay=None):
         for pk in range(3 if tier == "quick" else 5):
             jobs.append({"yaml_text": yamlout.text(d, random.Random(seed * 1000 + i * 10 + pk), permute=True), "texts": True,
                          "hashseed": 11 + pk}); meta.append((i, f"key-permutation-{pk}"))
+        # into an output directory that still holds the (longer) files of an earlier generation
+        jobs.append({"yaml_text": ytext, "texts": True, "regenerate": True}); meta.append((i, "reused-outdir"))
         jobs.append({"yaml_text": ytext, "texts": True, "args": ["--only-pkg"]}); meta.append((i, "only-pkg"))
         jobs.append({"yaml_text": ytext, "texts": True, "args": ["--only-top"]}); meta.append((i, "only-top"))
         jobs.append({"yaml_text": ytext, "stdout": True}); meta.append((i, "stdout"))
